@@ -355,6 +355,25 @@ fn check(ctx: &Ctx) -> i32 {
             check_mono(&base, pool[xi], pos, &reqs, l);
         }
     });
+    // category triples: an important rule, an ordinary blocking rule and an exception together (no
+    // pair of them shows what the three do): each of the three in turn is the rule added to the
+    // other two, at every position. Untagged rules only (tags are C07's subject).
+    let untagged: Vec<&'static str> = pool.iter().copied().filter(|r| !r.contains("tag=")).collect();
+    let imps: Vec<&'static str> = untagged.iter().copied().filter(|r| r.contains("important") && !r.starts_with("@@")).collect();
+    let excs: Vec<&'static str> = untagged.iter().copied().filter(|r| r.starts_with("@@") && !r.contains("important") && kind_of(r) == Kind::Exception).collect();
+    let blks: Vec<&'static str> = untagged.iter().copied().filter(|r| !r.contains("important") && !r.contains("redirect") && kind_of(r) == Kind::Blocking).collect();
+    ctx.bound("category_triples", json!({"important": imps, "exceptions": excs, "blocking": blks.len()}));
+    let triple_reqs: Vec<Req> = alpha::requests(false, false).into_iter().filter(|r| r.ty == "script" || r.ty == "image" || r.ty == "document").collect();
+    let nt = (imps.len() * excs.len() * blks.len()) as u64;
+    ctx.par_range("category triples", nt, 2, |i, l| {
+        let (a, b, c) = (i as usize % imps.len(), i as usize / imps.len() % excs.len(), i as usize / imps.len() / excs.len());
+        let (im, ex, bl) = (imps[a], excs[b], blks[c]);
+        for pos in 0..=2 {
+            check_mono(&[im, ex], bl, pos, &triple_reqs, l);
+            check_mono(&[bl, ex], im, pos, &triple_reqs, l);
+            check_mono(&[im, bl], ex, pos, &triple_reqs, l);
+        }
+    });
     // (c) badfilter pairs, over a reduced request set (every URL of U_net, two (initiator,type) pairs)
     let bf = bf_rules();
     let bf_reqs: Vec<Req> = alpha::requests(false, false)
@@ -410,7 +429,7 @@ fn check(ctx: &Ctx) -> i32 {
     });
     ctx.finish(
         "model_checking",
-        "(a,b) every base list of <= k rules of R_net' (R_net without badfilter/csp/removeparam) x every extra rule x every insertion position, two real engines each, under every tag subset, against U_net x (initiator,type): both engines' blocked bit compared with the reference precedence, and the two monotonicity implications; (c) every ordered pair of the 184 rule spellings (8 patterns x 24 option spellings incl. aliases and reorderings): engine([base, y, z$badfilter]) compared with the reference for [base] or [base, y] according to the alias-normalising oracle; the same over a 25-pattern x 3-option pattern cube and a 3-pattern x 29-option option cube (one option set per distinguishing feature of a rule; csp answers compared as well); non-trivial = the extra rule changed a verdict / the pair cancels or y matched something",
+        "(a,b) every base list of <= k rules of R_net' (R_net without badfilter/csp/removeparam) x every extra rule x every insertion position, two real engines each, under every tag subset, against U_net x (initiator,type): both engines' blocked bit compared with the reference precedence, and the two monotonicity implications; every (important rule, exception, ordinary blocking rule) triple of the untagged pool with each of the three as the added rule; (c) every ordered pair of the 184 rule spellings (8 patterns x 24 option spellings incl. aliases and reorderings): engine([base, y, z$badfilter]) compared with the reference for [base] or [base, y] according to the alias-normalising oracle; the same over a 25-pattern x 3-option pattern cube and a 3-pattern x 29-option option cube (one option set per distinguishing feature of a rule; csp answers compared as well); non-trivial = the extra rule changed a verdict / the pair cancels or y matched something",
         &["tag differences between a rule and its badfilter twin are outside the domain (not generated)", "spellings that are semantically equal but textually different type lists are not generated"],
     )
 }
